@@ -157,4 +157,24 @@ CLAIMED = {
                      "replayed into the implementation",
         "design_ref": "DESIGN.md section 4 (C06)",
     },
+    "C05": {
+        "text": "PtychoLifecycle.tla specifies the reconstruction state's discrete skeleton (iteration count, "
+                "per-key lr history with zero back-fill, optimizer identity/step counters, scheduler epochs, "
+                "constraints, symbolic update trajectory) and transcribes reconstruct()'s handling of "
+                "reset / optimizer_params / scheduler_params; an interruption (save+reload zip/dir with raw "
+                "data, or clone) is a stuttering step. TLC checks FamilyAgree, ReloadRestores and "
+                "LrHistoryComplete over all programs of 3 calls (1-2 full-batch iterations each; adam / "
+                "adamw / sgd, exp / linear / plateau schedulers, removing an optimizer, changing "
+                "constraints, reset) with up to two interruptions at any split point, and rejects three "
+                "wrong Restore variants. A seeded sample of the 9.7k behaviours is replayed with twin "
+                "runs on the tiny synthetic dataset (complex / pure-phase / potential objects, 1-2 "
+                "slices, 1-2 probe modes): after every event the discrete projection is compared with "
+                "the model and losses, lr history, object and probe of the interrupted process with the "
+                "uninterrupted twin and with the saved state.",
+        "note": "Trusted: TLC, the synthetic fixture, torch determinism on one CPU thread; numeric "
+                "tolerance rtol 2e-4 (float32). Full-batch updates only; CPU only.",
+        "technique": "TLA+ state machine checked by TLC; exported behaviours replayed as twin runs on the "
+                     "implementation (S->C)",
+        "design_ref": "DESIGN.md section 4 (C05)",
+    },
 }
